@@ -309,7 +309,9 @@ TSUTIL = 'packages/nbdime/src/common/util.ts'
 TSGEN = 'packages/nbdime/src/patch/generic.ts'
 TSDE = 'packages/nbdime/src/diff/diffentries.ts'
 TSDU = 'packages/nbdime/src/diff/util.ts'
-M('C15', 'ts-whitelist-drops-either', TSDEC, "      'clear_parent',\n      'either',\n    ])", "      'clear_parent',\n    ])", 'R15.1')
+M('C15', 'ts-whitelist-drops-either', TSDEC, "      'take_max',\n      'either',\n    ])", "      'take_max',\n    ])", 'R15.1')
+M('C15', 'ts-whitelist-drops-take-max', TSDEC, "      'clear_parent',\n      'take_max',\n      'either',\n    ])", "      'clear_parent',\n      'either',\n    ])", 'R15.1')
+M('C15', 'ts-clear-arm-always-replaces', TSDEC, "      let d = opAdd(key, makeClearedValue(added));", "      let d = opReplace(key, makeClearedValue(added));", 'R15.8')
 M('C15', 'python-only-action', DEC, '                action = "clear"\n', '                action = "clear_value"\n', 'R15.1', 'clear_value')
 M('C15', 'ts-resolve-loses-custom-arm', TSDEC, "  } else if (a === 'custom') {", "  } else if (a === 'customized') {", 'R15.1')
 M('C15', 'ts-patch-sequence-loses-removerange', TSGEN, "    } else if (e.op === 'removerange') {\n      // Delete a number of values by skipping", "    } else if (e.op === 'remove_range') {\n      // Delete a number of values by skipping", 'R15.2')
